@@ -30,7 +30,7 @@ RULE = (
 ASSUMPTIONS = ["the user posterior is deterministic; recorded values are compared at 1e-12 relative (L * (1/T) versus L / T)"]
 TIMEOUT = {"quick": 400, "thorough": 2400}
 REQUIRED = {"rows_rederived": 20000, "programs": 60, "cases:tempered": 20, "cases:bounded": 20, "twin_pairs": 15,
-            "mode_checks": 60, "tempering_runs": 8, "exchanged_points_checked": 10, "reloads": 10, "ensemble:failed_updates": 100}
+            "mode_checks": 60, "tempering_runs": 8, "exchanged_points_checked": 10, "reloads": 10, "ensemble:failed_updates": 100, "interrupted_calls": 15}
 
 
 def jobs(tier, seed):
@@ -127,6 +127,23 @@ def run_program(rec, ch, kind, target, T, prog, rng, ctx):
                 ch = r
                 rec.count("reloads")
                 continue
+        elif op == "interrupt":
+            # the run is interrupted from inside the user's posterior (Ctrl-C, or a posterior that fails once) at a random evaluation;
+            # the caller keeps the sampler and goes on: every recorded row must still be a (sample, its log-probability) pair
+            target.arm(m)
+            try:
+                if kind == "ensemble":
+                    ch.advance(6)
+                else:
+                    ch.advance(40) if rng.random() < 0.5 else [ch.take_step() for _ in range(40)]
+                r = None
+            except mc.InjectedInterrupt:
+                r = None
+                rec.count("interrupted_calls")
+            except Exception as exc:  # noqa: BLE001
+                r = Raised(exc)
+            finally:
+                target.disarm()
         elif op == "steps":
             r = guarded(lambda: [ch.take_step() for _ in range(m)])
         elif op == "advance":
@@ -170,6 +187,8 @@ def random_program(rng, kind):
     prog = []
     for _ in range(int(rng.integers(1, 5))):
         if kind == "ensemble":
+            if rng.random() < 0.15:
+                prog.append(("interrupt", int(rng.integers(1, 40))))
             prog.append(("advance", int(rng.choice([0, 1, 3, 8]))))
         else:
             r = rng.random()
@@ -177,8 +196,11 @@ def random_program(rng, kind):
                 prog.append(("steps", int(rng.integers(1, 30))))
             elif r < 0.7:
                 prog.append(("advance", int(rng.choice([0, 1, 7, 40, 101, 130]))))
-            elif r < 0.85:
+            elif r < 0.82:
                 prog.append(("replace", 0))
+            elif r < 0.92:
+                prog.append(("interrupt", int(rng.integers(1, 60))))
+                prog.append(("steps", int(rng.integers(2, 20))))
             else:
                 prog.append(("reload", 0))
                 prog.append(("steps", int(rng.integers(2, 20))))
@@ -239,6 +261,7 @@ def run_job(job, rec):
         kind = mc.KINDS[(c + job["j"]) % len(mc.KINDS)]
         d = int(rng.choice([1, 2, 3, 5]))
         tkind, target = make_target(rng, d)
+        target = mc.Interruptible(target)
         T = 1.0 if kind == "ensemble" else float(rng.choice([1.0, 3.0, 7.5]))
         bounded = bool(rng.random() < 0.45)
         ctx = {"program": c, "kind": kind, "d": d, "target": tkind, "T": T, "bounded": bounded}
